@@ -55,22 +55,26 @@ Definition clash (o : opts) (a b : catom) : result bool :=
        end.
 
 (* all unordered pairs i < j of considered atoms (indices into the given atom list) that clash *)
+Definition candidate (o : opts) (a b : catom) : result bool :=
+  if considered o a && considered o b then clash o a b else Ok false.
+
+Fixpoint clash_row (o : opts) (a : catom) (i j : nat) (r : list catom) : result (list (nat * nat)) :=
+  match r with
+  | [] => Ok []
+  | b :: r' =>
+      match candidate o a b, clash_row o a i (S j) r' with
+      | Ok true, Ok t => Ok ((i, j) :: t)
+      | Ok false, Ok t => Ok t
+      | Raise e, _ => Raise e
+      | _, Raise e => Raise e
+      end
+  end.
+
 Fixpoint clashes_from (o : opts) (i : nat) (l : list catom) : result (list (nat * nat)) :=
   match l with
   | [] => Ok []
   | a :: rest =>
-      let row := (fix go (j : nat) (r : list catom) : result (list (nat * nat)) :=
-                    match r with
-                    | [] => Ok []
-                    | b :: r' =>
-                        match (if considered o a && considered o b then clash o a b else Ok false), go (S j) r' with
-                        | Ok true, Ok t => Ok ((i, j) :: t)
-                        | Ok false, Ok t => Ok t
-                        | Raise e, _ => Raise e
-                        | _, Raise e => Raise e
-                        end
-                    end) (S i) rest in
-      match row, clashes_from o (S i) rest with
+      match clash_row o a i (S i) rest, clashes_from o (S i) rest with
       | Ok r1, Ok r2 => Ok (r1 ++ r2)
       | Raise e, _ => Raise e
       | _, Raise e => Raise e
